@@ -74,6 +74,19 @@ pub fn run_isolate(ex: &mut Executor, runs: &[(IsoRole, ExecSpec)], by_fee: bool
             out.fail = Some(f);
             return out;
         }
+        // The tool decides from the very first RDH of its input whether this is ALICE data and which
+        // system it comes from; when the compared arrangement puts a corrupted RDH there the whole input
+        // is refused (or the run ends with a fatal): no per-link validation takes place, nothing to compare.
+        let refused = oracle::log_messages(&r.stderr).iter().any(|m| {
+            m.level == "ERROR"
+                && (m.text.starts_with("Init processing failed")
+                    || m.text.starts_with("Failed to parse system ID")
+                    || m.text.starts_with("FATAL: Unknown system ID"))
+        });
+        if refused {
+            ex.probe("compared_run_refused_at_first_rdh");
+            continue;
+        }
         let n = normalise(&r, &spec.input, by_fee);
         let groups: Vec<u16> = match role {
             IsoRole::Reference => vec![],
@@ -91,6 +104,33 @@ pub fn run_isolate(ex: &mut Executor, runs: &[(IsoRole, ExecSpec)], by_fee: bool
                 g
             }
         };
+        // a filter run validates the selected packets only: no message may belong to a link / FEE ID
+        // none of whose packets match the filter
+        if let IsoRole::Filtered(_) = role {
+            if let Some(f) = filter_of(&spec.argv) {
+                let w = walk(&spec.input);
+                let selected: std::collections::BTreeSet<u16> = w
+                    .pkts
+                    .iter()
+                    .filter(|p| f.matches(&p.rdh))
+                    .map(|p| if by_fee { p.rdh.fee_id } else { p.rdh.link_id as u16 })
+                    .collect();
+                if let Some((g, msgs)) = n.iter().find(|(g, m)| **g != u16::MAX && !selected.contains(g) && !m.is_empty()) {
+                    out.fail = Some(Fail::new(
+                        "isolation",
+                        "filtered-run-reports-unselected-link",
+                        format!(
+                            "`{}` reports {} message(s) for {} {g}, none of whose packets match the filter; first: `{}`",
+                            spec.cmdline(),
+                            msgs.len(),
+                            if by_fee { "FEE ID" } else { "link" },
+                            clip_pub(&msgs[0])
+                        ),
+                    ));
+                    return out;
+                }
+            }
+        }
         for g in groups {
             let a = n0.get(&g).unwrap_or(&empty);
             let b = n.get(&g).unwrap_or(&empty);
@@ -129,4 +169,23 @@ pub fn run_isolate(ex: &mut Executor, runs: &[(IsoRole, ExecSpec)], by_fee: bool
         }
     }
     out
+}
+
+/// The filter option of a command line (as produced by `Filter::args`).
+fn filter_of(argv: &[String]) -> Option<itsgen::walker::Filter> {
+    use itsgen::walker::Filter;
+    for (i, a) in argv.iter().enumerate() {
+        let v = argv.get(i + 1)?;
+        match a.as_str() {
+            "-f" => return v.parse().ok().map(Filter::Link),
+            "-F" => return v.parse().ok().map(Filter::Fee),
+            "-s" => {
+                let (l, st) = v.strip_prefix('L')?.split_once('_')?;
+                let (l, st): (u16, u16) = (l.parse().ok()?, st.parse().ok()?);
+                return Some(Filter::Stave((l << 12) | st));
+            }
+            _ => {}
+        }
+    }
+    None
 }
